@@ -1025,13 +1025,14 @@ Proof.
 Qed.
 
 Lemma mctx_facts c m : thr_ok (cthr c) -> mgood (cK c) (cbin c) m ->
-  mctx_of c m = MC (fast_tail (im m)) (sum_min (im m)) (length (lo m))
-                   (Some (inject_Z (b0of c m) * cbin c)%Q) /\
+  (exists tie, mctx_of c m = MC (fast_tail (im m)) (sum_min (im m)) (length (lo m))
+                   (Some (inject_Z (b0of c m) * cbin c)%Q) tie) /\
   gleast (Pb (im m) (cthr c)) (b0of c m).
 Proof.
   intros HT [HR [W [A4 Hw]]].
   destruct (spec_b0_gleast (im m) (cthr c) W A4 HT) as [b0 [E [G _]]].
-  unfold mctx_of, b0of. rewrite spec_b0_fast_eq, (mat_rel_length _ _ _ _ HR), E. split; [reflexivity | exact G].
+  unfold mctx_of, b0of. rewrite spec_b0_fast_eq, (mat_rel_length _ _ _ _ HR), E.
+  split; [eexists; reflexivity | exact G].
 Qed.
 
 Lemma tailp_count m w b : wfB (im m) ->
@@ -1046,18 +1047,19 @@ Section HitOk.
 
   Lemma window_class k m plus s i : nth_error (cmotifs c) k = Some m ->
     let sQ := scoreQ (cK c) (spec_score (lo m) plus s i) in
-    let T := m_T (nth k (map (mctx_of c) (cmotifs c)) (MC [] 0 0 None)) in
-    (passw c m plus s i = true -> wcls T s i (length (lo m)) sQ <> WMiss) /\
-    (passw c m plus s i = false -> wcls T s i (length (lo m)) sQ <> WHit).
+    let X := nth k (map (mctx_of c) (cmotifs c)) (MC [] 0 0 None false) in
+    (passw c m plus s i = true -> wcls (m_tie X) (m_T X) s i (length (lo m)) sQ <> WMiss) /\
+    (passw c m plus s i = false -> wcls (m_tie X) (m_T X) s i (length (lo m)) sQ <> WHit).
   Proof.
-    intros Ek sQ T. destruct G as [HK [Hbin [HT [Hne [HG Hss]]]]].
+    intros Ek sQ X. destruct G as [HK [Hbin [HT [Hne [HG Hss]]]]].
     assert (Gm : mgood (cK c) (cbin c) m).
     { rewrite Forall_forall in HG. apply HG. eapply nth_error_In; eassumption. }
-    destruct (mctx_facts c m HT Gm) as [Ex _].
-    assert (ET : T = Some (inject_Z (b0of c m) * cbin c)%Q).
-    { unfold T. rewrite (nth_error_nth _ _ _ (map_nth_error (mctx_of c) k (cmotifs c) Ek)).
-      rewrite Ex. reflexivity. }
-    rewrite ET. unfold passw. rewrite (passes_Qltb _ _ _ _ HK). unfold wcls.
+    destruct (mctx_facts c m HT Gm) as [[tie Ex] _].
+    assert (EX : X = MC (fast_tail (im m)) (sum_min (im m)) (length (lo m))
+                        (Some (inject_Z (b0of c m) * cbin c)%Q) tie).
+    { unfold X. rewrite (nth_error_nth _ _ _ (map_nth_error (mctx_of c) k (cmotifs c) Ek)). exact Ex. }
+    rewrite EX. cbn [m_tie m_T]. unfold passw. rewrite (passes_Qltb _ _ _ _ HK). unfold wcls.
+    destruct tie; [split; discriminate|].
     destruct (all_unknown s i (length (lo m))).
     - fold sQ. split; intros H; rewrite H; discriminate.
     - split; [apply classify_pass | apply classify_nopass].
@@ -1075,14 +1077,14 @@ Section HitOk.
     destruct G as [HK [Hbin [HT [Hne [HG Hss]]]]].
     assert (Gm : mgood (cK c) (cbin c) m).
     { rewrite Forall_forall in HG. apply HG. eapply nth_error_In; eassumption. }
-    destruct (mctx_facts c m HT Gm) as [Ex Gb]. destruct Gm as [HR [W [A4 Hw]]].
+    destruct (mctx_facts c m HT Gm) as [[tie Ex] Gb]. destruct Gm as [HR [W [A4 Hw]]].
     assert (Hk : (k < length (cmotifs c))%nat) by (apply nth_error_Some; congruence).
     assert (Hl : (l < length (cseqs c))%nat) by (apply nth_error_Some; congruence).
     unfold hit_ok, mk_hit. cbn [h_motif h_plus h_seq h_start h_end h_score h_p]. cbv zeta.
     rewrite !Nat2Z.id.
     rewrite (nth_error_nth _ _ _ Ek), (nth_error_nth _ _ _ El).
     rewrite (nth_error_nth _ _ _ (map_nth_error (mctx_of c) k (cmotifs c) Ek)) in Hcls |- *.
-    rewrite Ex in Hcls |- *. cbn [m_T m_tl m_base m_w] in Hcls |- *.
+    rewrite Ex in Hcls |- *. cbn [m_T m_tl m_base m_w m_tie] in Hcls |- *.
     set (sZ := spec_score (lo m) plus s i) in *.
     set (sQ := scoreQ (cK c) sZ) in *.
     set (q := score_bin (cK c) (cbin c) sZ).
@@ -1099,7 +1101,7 @@ Section HitOk.
     - lia.
     - apply Z.leb_le. lia.
     - apply Z.eqb_eq. lia.
-    - destruct (wcls _ _ _ _ sQ); [reflexivity | congruence | reflexivity].
+    - destruct (wcls _ _ _ _ _ sQ); [reflexivity | congruence | reflexivity].
     - apply Qclose_refl. apply Qmax1_nonneg.
     - unfold p_ok. cbn [existsb]. unfold sQ. rewrite <- (score_bin_Qtrunc _ _ _ HK Hbin). fold q.
       rewrite (tailp_count m _ q W).
@@ -1138,8 +1140,8 @@ Section HitOk.
     rewrite (Hcount k plus l i m s Ek El Hp) by lia.
     destruct (window_class k m plus s i Ek) as [C1 C2].
     destruct (passw c m plus s i).
-    - specialize (C1 eq_refl). destruct (wcls _ _ _ _ _); [reflexivity | congruence | reflexivity].
-    - specialize (C2 eq_refl). destruct (wcls _ _ _ _ _); [congruence | reflexivity | reflexivity].
+    - specialize (C1 eq_refl). destruct (wcls _ _ _ _ _ _); [reflexivity | congruence | reflexivity].
+    - specialize (C2 eq_refl). destruct (wcls _ _ _ _ _ _); [congruence | reflexivity | reflexivity].
   Qed.
 
   Lemma windows_model : windows_ok c (map (mctx_of c) (cmotifs c)) (concat (pgroups c (cmotifs c) 0)) = true.
@@ -1361,21 +1363,21 @@ Section CountsOk.
     destruct (crc c); cbn [map sumz]; [rewrite pm_length; lia | cbn; lia].
   Qed.
 
-  Definition wcnt (T : option Q) (m : motif) (plus : bool) (s : list Z) (cls : wclass) : Z :=
+  Definition wcnt (X : mctx) (m : motif) (plus : bool) (s : list Z) (cls : wclass) : Z :=
     Z.of_nat (length (filter (fun i =>
-        match wcls T s i (length (lo m)) (scoreQ (cK c) (spec_score (lo m) plus s i)), cls with
+        match wcls (m_tie X) (m_T X) s i (length (lo m)) (scoreQ (cK c) (spec_score (lo m) plus s i)), cls with
         | WHit, WHit | WAmb, WAmb => true
         | _, _ => false
         end) (seq 0 (length s + 1 - length (lo m))))).
 
   Lemma count_class_eq ctxs k m cls : nth_error (cmotifs c) k = Some m ->
     count_class c ctxs k cls =
-    sumz (map (fun plus => sumz (map (fun s => wcnt (m_T (nth k ctxs (MC [] 0 0 None))) m plus s cls) (cseqs c)))
+    sumz (map (fun plus => sumz (map (fun s => wcnt (nth k ctxs (MC [] 0 0 None false)) m plus s cls) (cseqs c)))
               (strands (crc c))).
   Proof.
     intros Ek. unfold count_class. rewrite (nth_error_nth _ _ _ Ek).
     apply sumz_map_ext. intros plus _.
-    exact (sumz_nth_seq (fun s => wcnt (m_T (nth k ctxs (MC [] 0 0 None))) m plus s cls) [] (cseqs c)).
+    exact (sumz_nth_seq (fun s => wcnt (nth k ctxs (MC [] 0 0 None false)) m plus s cls) [] (cseqs c)).
   Qed.
 
   Lemma class_bounds k m : nth_error (cmotifs c) k = Some m ->
@@ -1384,17 +1386,17 @@ Section CountsOk.
     count_class c ctxs k WHit + count_class c ctxs k WAmb.
   Proof.
     intros Ek ctxs. rewrite group_length, !(count_class_eq ctxs k m _ Ek).
-    set (T := m_T (nth k ctxs (MC [] 0 0 None))).
+    set (T := nth k ctxs (MC [] 0 0 None false)).
     assert (Hper : forall plus s,
       wcnt T m plus s WHit <= npass m plus s <= wcnt T m plus s WHit + wcnt T m plus s WAmb).
     { intros plus s. unfold wcnt, npass. split.
       - apply inj_le. apply filter_len_le. intros i _ Hi.
         destruct (window_class c G k m plus s i Ek) as [_ C2]. fold ctxs T in C2.
         destruct (passw c m plus s i); [reflexivity|]. specialize (C2 eq_refl).
-        destruct (wcls T _ _ _ _); congruence.
+        destruct (wcls _ _ _ _ _ _); congruence.
       - rewrite <- Nat2Z.inj_add. apply inj_le. apply filter_len_split. intros i _ Hi.
         destruct (window_class c G k m plus s i Ek) as [C1 _]. fold ctxs T in C1. specialize (C1 Hi).
-        destruct (wcls T _ _ _ _); [left; reflexivity | congruence | right; reflexivity]. }
+        destruct (wcls _ _ _ _ _ _); [left; reflexivity | congruence | right; reflexivity]. }
     rewrite <- sumz_map_add. split.
     - apply sumz_map_le. intros plus _. apply sumz_map_le. intros s _. apply (Hper plus s).
     - apply sumz_map_le. intros plus _. rewrite <- sumz_map_add. apply sumz_map_le. intros s _. apply (Hper plus s).
